@@ -20,6 +20,6 @@ git -C /repo worktree add --detach "$D/repo" HEAD >/dev/null 2>&1
   mkdir -p "$D/repo/$(dirname "$f")"; cp "/repo/$f" "$D/repo/$f"; done
 if [ -n "$P" ]; then git -C "$D/repo" apply "$P"; fi
 mkdir -p "$D/verif"
-rsync -a --exclude .git --exclude build --exclude replays --exclude '.lock.*' /verif/ "$D/verif/"
+rsync -a --exclude .git --exclude build --exclude replays --exclude '.lock.*' --exclude '*.tmp.*' /verif/ "$D/verif/" || [ $? -eq 24 ]   # 24 = files vanished while copying (other builds running): harmless
 sed -i "s#=> /repo#=> $D/repo#" "$D/verif/harness/go.mod"
 echo "VERIF_REPO=$D/repo $D/verif/check <ID> --tier quick"
